@@ -23,7 +23,7 @@ package drbg
 //@ func NewHashDrbg(seed) (drbg, err)
 //@   serves C06 C12 C10
 //@   requires seed != nil
-//@   ensures [C06:drbg_key_layout] err == nil && drbgInv(drbg) && fresh(drbg) && drbg.sip.hkey == sub(seq(seed), 0, 16) && seq(drbg.ofb) == sub(seq(seed), 16, 24) && len(drbg.sip.absorbed) == 0
+//@   ensures [C06:drbg_key_layout] err == nil && drbgInv(drbg) && fresh(drbg) && drbg.sip.hkey == sub(seq(seed), 0, 16) && seq(drbg.ofb) == sub(seq(seed), 16, 24) && len(drbg.sip.absorbed) == 0 && fresh(drbg.sip)
 
 //@ func (*HashDrbg).Int63(drbg) (ret)
 //@   serves C12
